@@ -199,8 +199,63 @@ class C03Hook:
         ctx.count('rejected-calls', info['calls_rejected'])
 
 
+def precommit_veto_scenario(ctx):
+    """A role provider vetoes a transaction in its pre-commit handler (raises). That is an exception inside the commit
+    phase before anything is applied: the application must see it, the MDIB and all lookups must be unchanged, nothing
+    may be sent (in the model: the `aborted` outcome)."""
+    from sdc11073.exceptions import ApiUsageError
+    p = lb.Provider(mdib_path=c02.MDIBS[0], start=False, role_providers=True)
+    m = p.mdib
+    w = tx.World(p, ctx.subrng('veto'))
+    w.mdib_path = c02.MDIBS[0]
+    try:
+        products = list(p.device.product_lookup.values())
+        alerts = w.states_of_kind('alert')
+        metrics = w.states_of_kind('metric')
+        if not products or not alerts or not metrics:
+            ctx.count('veto-scenario-skipped')
+            return
+
+        class Veto:
+            def on_pre_commit(self, mdib, transaction):
+                if any(h in alerts[:1] for h in transaction.alert_state_updates) or any(h == metrics[0] for h in transaction.metric_state_updates):
+                    raise ApiUsageError('vetoed by interlock role provider')
+
+            def on_post_commit(self, mdib, transaction):
+                pass
+
+            def stop(self):
+                pass
+        for prod in products:
+            prod._ordered_role_providers.append(Veto())  # noqa: SLF001
+        for kind, h in (('metric', metrics[0]), ('alert', alerts[0])):
+            before = full_snapshot(w)
+            p.take_wire()
+            raised = None
+            try:
+                with getattr(m, f'{kind}_state_transaction')() as mgr:
+                    st = mgr.get_state(h)
+                    w.mutate_state(st, 77)
+            except ApiUsageError as ex:
+                raised = ex
+            after = full_snapshot(w)
+            wire = p.take_wire()
+            case = {'veto_scenario': kind, 'handle': h}
+            if raised is None:
+                ctx.fail('pre-commit-veto-not-raised', f'{kind} transaction vetoed in pre-commit completed without an exception', case)
+            if after != before:
+                ctx.fail('pre-commit-veto-changed-mdib', f'{kind}: {lb.diff_snapshots(before, after)[:3]}', case)
+            if wire:
+                ctx.fail('pre-commit-veto-sent-report', str([x.short for x in wire]), case)
+            ctx.case(case, nontrivial=True)
+            ctx.count('veto-scenarios')
+    finally:
+        w.close()
+
+
 def run(ctx):
     c02.run(ctx, hook_cls=C03Hook, prop='C03', drv='drv_c03')
+    precommit_veto_scenario(ctx)
 
 
 def search(ctx):
@@ -211,6 +266,11 @@ def replay(ctx, obj):
     lb.quiet()
     case = obj['case']
     ctx2 = core.Ctx('C03', 'quick', 0)
+    if 'veto_scenario' in case:
+        precommit_veto_scenario(ctx2)
+        for f in ctx2.failures:
+            print('  ', f['signature'], ':', f['detail'])
+        return any(f['signature'] == obj['signature'] for f in ctx2.failures)
     c02.run_history(ctx2, case.get('mdib', c02.MDIBS[0]), ctx2.subrng('replay'), 0, [C03Hook(ctx2)], scripts=case['history'])
     for f in ctx2.failures:
         print('  ', f['signature'], ':', f['detail'])
